@@ -12,7 +12,7 @@ use std::collections::{BTreeMap, BTreeSet};
 use std::path::{Path, PathBuf};
 use std::process::Command;
 
-const ALPHABET: [&str; 13] = [
+const ALPHABET: [&str; 17] = [
     "lda d",
     "lda u",
     "lda v",
@@ -23,6 +23,11 @@ const ALPHABET: [&str; 13] = [
     ".import * from \"f1.asm\"",
     ".import b as bb from \"f1.asm\"",
     ".import * as ns from \"f2.asm\"",
+    // several imports per file: more files to discover, and files that do not exist
+    ".import * as n3 from \"f3.asm\"",
+    ".import * as n4 from \"f4.asm\"",
+    ".import * from \"missing1.asm\"",
+    ".import * from \"missing2.asm\"",
     "d: nop",
     ".const c = 1",
     "ma(1)",
@@ -31,6 +36,13 @@ const ALPHABET: [&str; 13] = [
 const F1: &str = "a: nop\nb: rts\n.macro ma(p) { lda #p }\n";
 const F1_ERR: &str = "a: nop\nb: rts\nlda u\nlda zz\nlda u\n.macro ma(p) { lda #p }\n";
 const F2: &str = "x: nop\n.import * as inner from \"f1.asm\"\ny: jmp x\n";
+const F3: &str = "p: nop\n";
+const F4: &str = "q: nop\n.import * as deep from \"f3.asm\"\n";
+/// every imported file has a syntax error of its own (and f4 two imports that cannot be found)
+const F1_SYN: &str = "a: nop\nlda #\nb: rts\n.macro ma(p) { lda #p }\n";
+const F2_SYN: &str = "x: nop\n.import * as inner from \"f1.asm\"\n.byte ,\ny: jmp x\n";
+const F3_SYN: &str = "p: nop\nsta (\n";
+const F4_SYN: &str = "q: nop\n.import * as deep from \"f3.asm\"\n.import * from \"gone1.asm\"\n.import * from \"gone2.asm\"\n)\n";
 
 #[derive(Clone, Debug)]
 struct Project {
@@ -99,15 +111,23 @@ fn projects(max_len: usize) -> Vec<Project> {
                 c /= n;
             }
             let main = lines.join("\n") + "\n";
-            for f1 in [F1, F1_ERR] {
-                // the erroneous f1 only matters when it is imported
-                if f1 == F1_ERR && !main.contains("f1.asm") && !main.contains("f2.asm") {
+            let imports = main.contains(".import");
+            for variant in 0..3 {
+                // the erroneous files only matter when something is imported
+                if variant > 0 && !imports {
                     continue;
                 }
+                let (f1, f2, f3, f4) = match variant {
+                    0 => (F1, F2, F3, F4),
+                    1 => (F1_ERR, F2, F3, F4),
+                    _ => (F1_SYN, F2_SYN, F3_SYN, F4_SYN),
+                };
                 let files = vec![
                     ("main.asm".to_string(), main.clone()),
                     ("f1.asm".to_string(), f1.to_string()),
-                    ("f2.asm".to_string(), F2.to_string()),
+                    ("f2.asm".to_string(), f2.to_string()),
+                    ("f3.asm".to_string(), f3.to_string()),
+                    ("f4.asm".to_string(), f4.to_string()),
                 ];
                 out.push(Project {
                     files: files.clone(),
@@ -236,7 +256,7 @@ pub fn run(ctx: &Ctx, replay: Option<&Value>, rest: &[String]) -> i32 {
     // valid projects additionally with listing and symbols
     let extra: Vec<Project> = projs
         .iter()
-        .filter(|p| !p.files[0].1.contains(" u") && !p.files[0].1.contains(" v") && !p.files[0].1.contains(" w") && !p.files[0].1.contains("nomacro"))
+        .filter(|p| !p.files[0].1.contains(" u") && !p.files[0].1.contains(" v") && !p.files[0].1.contains(" w") && !p.files[0].1.contains("nomacro") && !p.files[0].1.contains("missing"))
         .map(|p| Project {
             files: p.files.clone(),
             toml: "[build]\nlisting = true\nsymbols = [\"vice\"]\n".into(),
@@ -252,7 +272,8 @@ pub fn run(ctx: &Ctx, replay: Option<&Value>, rest: &[String]) -> i32 {
         let mut first: Option<BTreeMap<String, Vec<u8>>> = None;
         let mut differing: Option<(String, u64, Vec<u8>, Vec<u8>)> = None;
         for seed in 0..n_seeds {
-            let o = build(p, Some(seed), &scratch.join(format!("{}-{}", pi, seed)));
+            // (the same directory for every seed: "file not found" messages carry absolute paths)
+            let o = build(p, Some(seed), &scratch.join(format!("p{}", pi)));
             runs.fetch_add(1, std::sync::atomic::Ordering::Relaxed);
             ctx.eval(|| json!({"main.asm": p.files[0].1, "toml": p.toml, "seed": seed}));
             for (k, v) in &o {
@@ -278,7 +299,7 @@ pub fn run(ctx: &Ctx, replay: Option<&Value>, rest: &[String]) -> i32 {
         }
         let nvar: usize = seen.values().map(|v| v.len()).max().unwrap_or(1);
         variants_total.fetch_add(nvar as u64, std::sync::atomic::Ordering::Relaxed);
-        ctx.nontrivial(fnv_str(&format!("{}|{}|{}", p.files[0].1, p.files[1].1.len(), p.toml)));
+        ctx.nontrivial(fnv_str(&format!("{}|{}|{}|{}", p.files[0].1, p.files[1].1.len(), p.files[3].1.len(), p.toml)));
         let ok = first.as_ref().map_or(false, |f| f.get("exit").map(|e| e == b"Some(0)").unwrap_or(false));
         ctx.count(if ok { "projects_building" } else { "projects_with_errors" });
         if let Some((artefact, seed, a, b)) = differing {
@@ -298,8 +319,9 @@ pub fn run(ctx: &Ctx, replay: Option<&Value>, rest: &[String]) -> i32 {
     // sampled tripwire (labelled, never the reason for "holds"): a few runs with the OS's own seeds
     let mut tripwire = 0;
     for p in projs.iter().step_by((projs.len() / 40).max(1)).take(40) {
-        let a = build(p, None, &scratch.join("trip-a"));
-        let b = build(p, None, &scratch.join("trip-b"));
+        // (same directory: diagnostics carry absolute paths)
+        let a = build(p, None, &scratch.join("trip"));
+        let b = build(p, None, &scratch.join("trip"));
         tripwire += 1;
         if a != b {
             let fm: serde_json::Map<String, Value> = p.files.iter().map(|(n, t)| (n.clone(), json!(t))).collect();
@@ -319,7 +341,7 @@ pub fn run(ctx: &Ctx, replay: Option<&Value>, rest: &[String]) -> i32 {
     let _ = std::fs::remove_dir_all(&scratch);
     ctx.finish(
         "model_checking",
-        "every project (all statement sequences up to the length bound over 13 statements with defined/undefined names, macros and three import forms, x clean/erroneous imported file, valid ones also with listing+VICE symbols) x every hash seed 0..N-1 fed to every RandomState of the real `mos` process by an LD_PRELOAD getrandom shim; states = distinct (project, output variant) pairs; transitions = process runs; every run is the implementation itself",
+        "every project (all statement sequences up to the length bound over 17 statements with defined/undefined names, macros, five import forms over four importable files (two of which import further files) and imports of two missing files, x clean imported files / a semantic error in one / syntax errors and missing imports in all of them, valid ones also with listing+VICE symbols) x every hash seed 0..N-1 fed to every RandomState of the real `mos` process by an LD_PRELOAD getrandom shim; states = distinct (project, output variant) pairs; transitions = process runs; every run is the implementation itself",
         true,
         &[
             "exhaustive over (project, seed < N) only: the 2^128 seed space cannot be enumerated; the canary counters show how many iteration orders of a 2/3/4-element HashSet the N seeds produce",
